@@ -471,13 +471,20 @@ def policer_guard(ctx, rep, rule):
         rep.check(rule, mod + ".__init__|limit_rps", k in vals and vals[k].has("limit_rps", True) and vals[k].has("policer", False),
                   "RPSPolicer(float(limit_rps)) when only limit_rps is given", "limit_rps handling is %s" % list(vals),
                   py.loc(mod, init.node))
-    for mod, fn, ctor in (("sync_client", "SnmpSession.getnext", "GetNextIter"), ("sync_client", "SnmpSession.getbulk", "GetBulkIter")):
-        f = _need(ctx, rep, rule, "%s:%s" % (mod, fn))
-        if f:
-            for c, cx, st in f.calls_to(lambda t: t == ctor):
-                a = [ast.unparse(x) for x in c.args]
-                rep.check(rule, "%s.%s|policer passed" % (mod, fn), a and a[-1] == "self._policer", "iterator shares the session policer",
-                          "%s built from %s: the policer is not passed" % (ctor, a), py.loc(mod, c))
+    nctor = 0
+    for key, f in sorted(py.funcs.items()):
+        if not key.startswith("sync_client:"):
+            continue
+        for g in f.all_funcs():
+            for c, cx, st in g.calls:
+                ctor = ast.unparse(c.func)
+                if ctor in ("GetNextIter", "GetBulkIter"):
+                    nctor += 1
+                    a = [ast.unparse(x) for x in c.args] + ["%s=%s" % (k.arg, ast.unparse(k.value)) for k in c.keywords]
+                    rep.check(rule, "sync_client.%s|%s policer passed" % (g.qualname, ctor), bool(a) and a[-1] in ("self._policer", "policer=self._policer"),
+                              "iterator shares the session policer", "%s built from %s: the walk is not rate limited" % (ctor, a), py.loc("sync_client", c))
+    if nctor < 2:
+        rep.missing(rule, "sync_client: GetNextIter / GetBulkIter constructions")
 
 
 def policer_core(ctx, rep, rule):
